@@ -141,7 +141,9 @@ mod vp_kani_types {
     #[kani::unwind(100)]
     fn c01_key_order_and_offset_sparse() { key_order_and_offset(any_outpoint_sparse(), any_outpoint_sparse()) }
 
-    // Utxo order used for the unstable source and for the page offset: height descending, then outpoint, then value
+    // Utxo order used for the unstable source and for the page offset: height descending, then the outpoint in the byte
+    // order of its stable encoding (= the order of the stable address index, so that a page offset keeps its meaning when
+    // a block stabilises between two page requests: C06), then value
     #[kani::proof]
     #[kani::unwind(40)]
     fn c01_utxo_cmp_order() {
@@ -150,7 +152,9 @@ mod vp_kani_types {
         let c = a.cmp(&b);
         assert!(b.cmp(&a) == c.reverse());
         if a.height > b.height { assert!(c == std::cmp::Ordering::Less); }
-        if a.height == b.height && a.outpoint != b.outpoint { assert!(c == a.outpoint.cmp(&b.outpoint)); }
+        if a.height == b.height && a.outpoint != b.outpoint {
+            assert!(c == SS::to_bytes(&a.outpoint).to_vec().cmp(&SS::to_bytes(&b.outpoint).to_vec()));
+        }
         if a.height == b.height && a.outpoint == b.outpoint { assert!(c == a.value.cmp(&b.value)); }
         kani::cover!(c == std::cmp::Ordering::Equal);
     }
